@@ -312,6 +312,9 @@ where
         bit_write
             .write_bits(self_buffer_u64, from_buffer as usize)
             .map_err(CopyError::WriteError)?;
+        // Clear the copied bits, which the rotation moved to the lowest
+        // positions: the invalid part of the buffer must be zero
+        self.buffer = (self.buffer >> from_buffer) << from_buffer;
         n -= from_buffer;
 
         if n == 0 {
@@ -343,8 +346,9 @@ where
         bit_write
             .write_bits((new_word >> self.bits_in_buffer).upcast(), n as usize)
             .map_err(CopyError::WriteError)?;
-        self.buffer = UpcastableInto::<BB<WR>>::upcast(new_word)
-            .rotate_right(WR::Word::BITS as u32 - n as u32);
+        self.buffer = (UpcastableInto::<BB<WR>>::upcast(new_word)
+            << (BB::<WR>::BITS - 1 - self.bits_in_buffer))
+            << 1;
 
         Ok(())
     }
